@@ -34,3 +34,411 @@ Example C13_cap_ex_full :
   option_map len (wants_of (snd (srun 64 [SNewConn 1; SMsg 1 (MkWantlist (ex_junk :: ex_many) true) []])) 1)
   = Some 1024.
 Proof. vm_compute. reflexivity. Qed.
+
+Lemma srun_snd Sz ops : snd (srun Sz ops) = snd (srun_l Sz ops).
+Proof. rewrite srun_erase. reflexivity. Qed.
+
+(* for S >= 32 (every real instantiation: a CIDv0 needs 32 bytes) the model never reaches the panic flag *)
+Theorem server_no_panic : forall Sz ops, 32 <= Sz -> s_panic (snd (srun Sz ops)) = false.
+Proof. intros Sz ops HS. rewrite srun_snd. apply srun_l_no_panic, HS. Qed.
+
+(* ================================================================ C13 (release, proportionality) *)
+(* After on_peer_disconnected(p), and until p connects again, the server keeps no want set for p and
+   p is in no waiter list. *)
+Theorem C13_server_released : forall Sz ops1 ops2 p,
+  (forall op, In op ops2 -> op <> SNewConn p) ->
+  let st := snd (srun Sz (ops1 ++ SDisconnected p :: ops2)) in
+  s_panic st = false ->
+  wants_of st p = None /\ (forall c l, waiters_of st c = Some l -> ~ In p l).
+Proof.
+  intros Sz ops1 ops2 p Hno st Hp. subst st. rewrite srun_snd in *.
+  pose proof (keys_connected _ _ Hp) as Hk. pose proof (connected_released ops1 p ops2 Hno) as Hni.
+  rewrite <- Hk in Hni.
+  assert (Hw : wants_of (snd (srun_l Sz (ops1 ++ SDisconnected p :: ops2))) p = None).
+  { apply (alookup_None N.eqb Neqb_spec). assumption. }
+  split; [assumption|]. intros c l Hl Hin.
+  pose proof (srun_inv Sz (ops1 ++ SDisconnected p :: ops2)) as (_ & _ & HL). rewrite srun_snd in HL.
+  assert (Hx : waitsP (s_waiting (snd (srun_l Sz (ops1 ++ SDisconnected p :: ops2)))) p c) by (exists l; auto).
+  apply HL in Hx. destruct Hx as (s & Hs & _). unfold wants_of in Hw. congruence.
+Qed.
+
+Lemma concat_len_bound (wants : list (peer * list cid)) :
+  (forall p s, In (p, s) wants -> len s <= MAX_WANTLIST_ENTRIES_PER_PEER) ->
+  len (concat (map snd wants)) <= MAX_WANTLIST_ENTRIES_PER_PEER * len wants.
+Proof.
+  induction wants as [|[p s] wants IH]; intros H; cbn [map concat].
+  - rewrite !len_nil. lia.
+  - rewrite len_app, len_cons. specialize (H p s (or_introl eq_refl)) as Hs.
+    assert (IH' := IH (fun q t Hin => H q t (or_intror Hin))). cbn [snd]. lia.
+Qed.
+
+(* The server state is proportional to the set of connected peers: exactly one want set per
+   connected peer (each at most 1024 CIDs by C13_cap), waiter lists are non-empty, duplicate-free,
+   mention connected peers only, and there are at most 1024 * #connected of them. *)
+Theorem C13_server_proportional : forall Sz ops,
+  let st := snd (srun Sz ops) in
+  s_panic st = false ->
+  map fst (s_wants st) = connected ops /\ NoDup (connected ops) /\
+  len (s_wants st) = len (connected ops) /\
+  (forall c l, waiters_of st c = Some l -> NoDup l /\ l <> [] /\ forall q, In q l -> In q (connected ops)) /\
+  NoDup (map fst (s_waiting st)) /\
+  len (s_waiting st) <= MAX_WANTLIST_ENTRIES_PER_PEER * len (connected ops).
+Proof.
+  intros Sz ops st Hp. subst st. pose proof (srun_inv Sz ops) as ((Hk & Hs) & (Htk & Htl) & HL).
+  rewrite srun_snd in *. pose proof (keys_connected _ _ Hp) as Hc.
+  set (st := snd (srun_l Sz ops)) in *.
+  assert (Hlen : len (s_wants st) = len (connected ops)).
+  { rewrite <- Hc. unfold len. rewrite map_length. reflexivity. }
+  split; [assumption|]. split; [rewrite <- Hc; assumption|]. split; [assumption|]. split; [|split; [assumption|]].
+  - intros c l Hl. destruct (Htl _ _ Hl) as [H1 H2]. split; [assumption|]. split; [assumption|].
+    intros q Hq. assert (Hx : waitsP (s_waiting st) q c) by (exists l; auto).
+    apply HL in Hx. destruct Hx as (s & Hs1 & _). rewrite <- Hc.
+    apply (alookup_Some_key N.eqb Neqb_spec) in Hs1. assumption.
+  - rewrite <- Hlen. etransitivity; [|apply concat_len_bound].
+    + assert (Hincl : incl (map fst (s_waiting st)) (concat (map snd (s_wants st)))).
+      { intros c Hc'. apply in_map_iff in Hc'. destruct Hc' as ([c' l] & <- & Hin). cbn [fst].
+        apply (In_alookup cid_eqb cid_eqb_spec) in Hin; [|assumption].
+        destruct (Htl _ _ Hin) as [_ Hne]. destruct l as [|q l]; [congruence|].
+        assert (Hx : waitsP (s_waiting st) q c') by (exists (q :: l); cbn; auto).
+        apply HL in Hx. destruct Hx as (s & Hs1 & Hs2). apply in_concat. exists s. split; [|assumption].
+        apply (alookup_Some_In N.eqb Neqb_spec) in Hs1. apply in_map_iff. exists (q, s). auto. }
+      pose proof (NoDup_incl_length Htk Hincl) as Hle. unfold len. rewrite map_length in Hle. lia.
+    + intros p s Hin. apply (In_alookup N.eqb Neqb_spec) in Hin; [|assumption]. apply (Hs _ _ Hin).
+Qed.
+
+Definition ex_ops_c13 : list sop :=
+  [ SNewConn 1; SNewConn 2; SNewConn 3;
+    SMsg 1 (MkWantlist [ex_want (ex_cid 1); ex_want (ex_cid 2)] false) [];
+    SMsg 2 (MkWantlist [ex_want (ex_cid 2); ex_want (ex_cid 3)] true) [ex_cid 3; ex_cid 2];
+    SPoll; SDisconnected 2; SRelease 0 SMiss; SPoll ].
+
+Example C13_server_released_ex :
+  let st := snd (srun 64 ex_ops_c13) in
+  s_panic st = false /\ connected ex_ops_c13 = [1; 3] /\ wants_of st 2 = None /\
+  waiters_of st (ex_cid 2) = Some [1] /\ waiters_of st (ex_cid 3) = None /\ tasks_len st = 2.
+Proof. vm_compute. repeat split; reflexivity. Qed.
+
+(* ================================================================ Srv_inv *)
+(* In every reachable state: p is in the waiter list of c exactly when c is in p's want set; waiter
+   lists are duplicate-free and non-empty; the want set of p is the reference view `sview`. *)
+Theorem Srv_inv : forall Sz ops,
+  let st := snd (srun Sz ops) in
+  (forall p c, (exists l, waiters_of st c = Some l /\ In p l) <-> (exists s, wants_of st p = Some s /\ In c s)) /\
+  (forall c l, waiters_of st c = Some l -> NoDup l /\ l <> []) /\
+  (s_panic st = false -> forall p, wants_of st p = sview Sz p (fst (srun_l Sz ops))).
+Proof.
+  intros Sz ops st. subst st. pose proof (srun_inv Sz ops) as (_ & (_ & Htl) & HL).
+  split; [exact HL|]. split; [exact Htl|]. intros Hp p. rewrite srun_snd in *. apply wants_sview, Hp.
+Qed.
+
+(* ================================================================ C07 *)
+Lemma bsorted_NoDup bat : bsorted bat -> NoDup (map fst bat).
+Proof.
+  induction bat as [|[k l] bat IH]; cbn; [constructor|]. intros [Hk Hs]. constructor; [|auto].
+  intros Hin. specialize (Hk _ Hin). lia.
+Qed.
+
+Lemma sstep_l_outputs Sz st op o :
+  In o (snd (sstep_l Sz st op)) -> s_panic st = false /\ op = SPoll.
+Proof.
+  unfold sstep_l. destruct (s_panic st); [intros []|].
+  destruct op; cbn [snd]; try (intros []). auto.
+Qed.
+
+(* what a poll sends, in terms of the state before it *)
+Lemma poll_sends st p bl :
+  Inv st -> In (LSend p bl) (snd (do_poll st)) ->
+  exists wants' wt' bat st1 out1,
+    do_poll st = (MkS wants' wt' [] [] (s_blocked st1) (s_next_call st1) (s_panic st) (s_bad_order st),
+                  out1 ++ map send_of bat) /\
+    fold_left run_task (s_ready st) (poll_start st, []) = (st1, out1) /\
+    UH (s_wants st) (s_outq st ++ finished_hits (s_ready st)) (wants', wt', bat) /\
+    bget p bat = bl /\ bl <> [] /\
+    (forall bl', In (LSend p bl') (snd (do_poll st)) -> bl' = bl).
+Proof.
+  intros HI Hin. destruct (do_poll_spec st HI) as (st1 & out1 & wants' & wt' & bat & Hf & Hdp & HU & Hg).
+  exists wants', wt', bat, st1, out1. split; [assumption|]. split; [assumption|]. split; [assumption|].
+  rewrite Hdp in *. cbn [snd] in *.
+  assert (Hnd : NoDup (map fst bat)) by (apply bsorted_NoDup, (uh_sorted _ _ _ HU)).
+  assert (Hsend : forall bl', In (LSend p bl') (out1 ++ map send_of bat) -> alookup N.eqb p bat = Some bl').
+  { intros bl' H. rewrite in_app_iff in H. destruct H as [H|H].
+    - destruct (Hg _ H) as (k & c & Hk). discriminate.
+    - apply in_map_iff in H. destruct H as ([q l] & Hq & Hl). injection Hq as -> ->.
+      apply (In_alookup N.eqb Neqb_spec); assumption. }
+  pose proof (Hsend _ Hin) as Hl. split; [unfold bget; rewrite Hl; reflexivity|]. split.
+  - apply (alookup_Some_In N.eqb Neqb_spec) in Hl. apply (uh_nonempty _ _ _ HU _ _ Hl).
+  - intros bl' H. apply Hsend in H. congruence.
+Qed.
+
+(* Every block the server sends to p is for a CID that was in the reference view of p's wants
+   immediately before that poll, and is no longer in it afterwards; one poll sends p at most one
+   message, and that message contains a CID at most once. *)
+Theorem C07_only_owed : forall Sz ops op p bl c d,
+  let hist := fst (srun_l Sz ops) in
+  let out := snd (sstep_l Sz (snd (srun_l Sz ops)) op) in
+  In (LSend p bl) out -> In (c, d) bl ->
+  (exists s, sview Sz p hist = Some s /\ In c s) /\
+  (exists s', sview Sz p (hist ++ [(op, out)]) = Some s' /\ ~ In c s') /\
+  NoDup (map fst bl) /\
+  (forall bl', In (LSend p bl') out -> bl' = bl).
+Proof.
+  intros Sz ops op p bl c d hist out Hsend Hcd. subst hist out.
+  destruct (sstep_l_outputs _ _ _ _ Hsend) as [Hp ->].
+  pose proof (srun_l_from_inv Sz ops sinit sinit_inv) as HI. fold (srun_l Sz ops) in HI.
+  set (st := snd (srun_l Sz ops)) in *.
+  assert (Hstep : sstep_l Sz st SPoll = do_poll st) by (unfold sstep_l; rewrite Hp; reflexivity).
+  rewrite Hstep in *.
+  destruct (poll_sends st p bl HI Hsend) as (wants' & wt' & bat & st1 & out1 & Hdp & _ & HU & Hget & _ & Huniq).
+  assert (Hcd' : In (c, d) (bget p bat)) by (rewrite Hget; assumption).
+  destruct (uh_from _ _ _ HU p (c, d) Hcd') as [_ (s & Hs & Hin)]. cbn [fst] in Hin.
+  pose proof (wants_sview Sz ops p Hp) as Hv. fold st in Hv.
+  split; [exists s; rewrite <- Hv; auto|]. split; [|split].
+  - rewrite sview_snoc, <- Hv, <- Hstep, <- sstep_l_view; [|assumption|rewrite Hstep, do_poll_panic; assumption].
+    rewrite Hstep, Hdp. cbn [fst s_wants]. pose proof (uh_wants _ _ _ HU p) as Hw. cbn [fst snd] in Hw.
+    rewrite Hw, Hs, Hget. cbn [option_map]. eexists. split; [reflexivity|].
+    rewrite rm_blocks_In. intros [_ Hni]. apply Hni. apply in_map_iff. exists (c, d). auto.
+  - rewrite <- Hget. apply (uh_nodup _ _ _ HU).
+  - exact Huniq.
+Qed.
+
+(* The observable output is the erasure of the labelled one: the prefix sent with a block is
+   CidPrefix::from_cid(cid).to_bytes() of the CID the block was queued for. *)
+Theorem C07_prefix : forall Sz st op p blocks,
+  In (OSend p blocks) (snd (sstep Sz st op)) ->
+  exists bl, In (LSend p bl) (snd (sstep_l Sz st op)) /\
+             blocks = map (fun b => (prefix_to_bytes (prefix_of_cid (fst b)), snd b)) bl.
+Proof.
+  intros Sz st op p blocks. unfold sstep. destruct (sstep_l Sz st op) as [st' out]. cbn [snd].
+  intros H. apply in_map_iff in H. destruct H as (o & Ho & Hin). destruct o as [k c|q bl]; [discriminate|].
+  cbn in Ho. injection Ho as -> <-. exists bl. split; [assumption|reflexivity].
+Qed.
+
+(* ---------------------------------------------------------------- provenance of the data sent *)
+Definition hist_t := list (sop * list lout).
+
+Definition no_release_of (k : N) (h : hist_t) : Prop := forall r o, ~ In (SRelease k r, o) h.
+
+(* call k is a get of c that was started and has not been released since *)
+Definition started (hist : hist_t) (k : N) (c : cid) : Prop :=
+  exists h1 op1 o1 h2, hist = h1 ++ (op1, o1) :: h2 /\ In (LGet k c) o1 /\ no_release_of k h2.
+
+(* call k is a get of c, and the first release after its start completed it with result r *)
+Definition released_with (hist : hist_t) (k : N) (c : cid) (r : store_result) : Prop :=
+  exists h1 op1 o1 h2 o2 h3,
+    hist = h1 ++ (op1, o1) :: h2 ++ (SRelease k r, o2) :: h3 /\ In (LGet k c) o1 /\ no_release_of k h2.
+
+Definition from_store (hist : hist_t) (c : cid) (d : bytes) : Prop := exists k, released_with hist k c (SHit d).
+Definition from_network (hist : hist_t) (c : cid) (d : bytes) : Prop :=
+  exists bl o, In (SNewBlocks bl, o) hist /\ In (c, d) bl.
+Definition prov (hist : hist_t) (c : cid) (d : bytes) : Prop := from_store hist c d \/ from_network hist c d.
+
+Lemma released_with_mono hist x k c r : released_with hist k c r -> released_with (hist ++ [x]) k c r.
+Proof.
+  intros (h1 & op1 & o1 & h2 & o2 & h3 & -> & H1 & H2).
+  exists h1, op1, o1, h2, o2, (h3 ++ [x]). split; [|auto].
+  rewrite <- !app_assoc. cbn. rewrite <- app_assoc. reflexivity.
+Qed.
+
+Lemma prov_mono hist x c d : prov hist c d -> prov (hist ++ [x]) c d.
+Proof.
+  intros [(k & H)|(bl & o & H1 & H2)].
+  - left. exists k. apply released_with_mono, H.
+  - right. exists bl, o. rewrite in_app_iff. auto.
+Qed.
+
+Lemma started_mono hist x k c :
+  started hist k c -> (forall r o, x <> (SRelease k r, o)) -> started (hist ++ [x]) k c.
+Proof.
+  intros (h1 & op1 & o1 & h2 & -> & H1 & H2) Hx. exists h1, op1, o1, (h2 ++ [x]).
+  split; [rewrite <- app_assoc; reflexivity|]. split; [assumption|].
+  intros r o Hin. rewrite in_app_iff in Hin. destruct Hin as [Hin|[Hin|[]]]; [apply (H2 r o Hin)|].
+  apply (Hx r o). assumption.
+Qed.
+
+Lemma started_release hist k c r o : started hist k c -> released_with (hist ++ [(SRelease k r, o)]) k c r.
+Proof.
+  intros (h1 & op1 & o1 & h2 & -> & H1 & H2). exists h1, op1, o1, h2, o, [].
+  split; [rewrite <- app_assoc; reflexivity|auto].
+Qed.
+
+Record PV (st : sstate) (hist : hist_t) : Prop := {
+  pv_outq : forall c d, In (c, d) (s_outq st) -> prov hist c d;
+  pv_ready : forall t c d, In t (s_ready st) -> In (c, SHit d) (t_done t) -> prov hist c d;
+  pv_blocked : forall k c t, In (k, (c, t)) (s_blocked st) ->
+               started hist k c /\ forall c' d, In (c', SHit d) (t_done t) -> prov hist c' d
+}.
+
+Lemma finished_hits_In ready c d :
+  In (c, d) (finished_hits ready) -> exists t, In t ready /\ t_todo t = [] /\ In (c, SHit d) (t_done t).
+Proof.
+  unfold finished_hits. rewrite in_flat_map. intros (t & Ht & Hin). exists t. split; [assumption|].
+  destruct (t_todo t); [|destruct Hin]. split; [reflexivity|]. apply hits_In. assumption.
+Qed.
+
+Lemma PV_frame st st' hist op :
+  PV st hist -> (forall k r, op <> SRelease k r) ->
+  s_outq st' = s_outq st -> s_blocked st' = s_blocked st ->
+  (forall t, In t (s_ready st') -> In t (s_ready st) \/ t_done t = []) ->
+  PV st' (hist ++ [(op, [])]).
+Proof.
+  intros [H1 H2 H3] Hop Eq Eb Hr. constructor.
+  - rewrite Eq. intros c d H. apply prov_mono, H1, H.
+  - intros t c d Ht Hin. destruct (Hr t Ht) as [Ht'|E]; [|rewrite E in Hin; destruct Hin].
+    apply prov_mono. eapply H2; eassumption.
+  - rewrite Eb. intros k c t Hin. destruct (H3 k c t Hin) as [Hs Hd]. split.
+    + apply started_mono; [assumption|]. intros r o [= E _]. apply (Hop k r). assumption.
+    + intros c' d Hc'. apply prov_mono, Hd, Hc'.
+Qed.
+
+Lemma PV_step Sz st hist op :
+  Inv st -> s_panic st = false -> PV st hist ->
+  PV (fst (sstep_l Sz st op)) (hist ++ [(op, snd (sstep_l Sz st op))]).
+Proof.
+  intros HI Hp HPV. unfold sstep_l. rewrite Hp. destruct op as [q|q w order|bl|q|k r|]; cbn [fst snd].
+  - apply (PV_frame st); try assumption; try discriminate.
+    + unfold new_connection. destruct (alookup N.eqb q (s_wants st)); reflexivity.
+    + unfold new_connection. destruct (alookup N.eqb q (s_wants st)); reflexivity.
+    + unfold new_connection. destruct (alookup N.eqb q (s_wants st)); auto.
+  - unfold process_incoming_message.
+    destruct (alookup N.eqb q (s_wants st)) as [old|].
+    2:{ apply (PV_frame st); try assumption; try discriminate; auto. }
+    destruct (process_wantlist Sz old w) as [|new adds rems].
+    { apply (PV_frame st); try assumption; try discriminate; auto. }
+    apply (PV_frame st); try assumption; try discriminate; try reflexivity.
+    cbn [s_ready]. intros t Ht. rewrite in_app_iff in Ht. destruct Ht as [Ht|[<-|[]]]; auto.
+  - destruct HPV as [H1 H2 H3]. constructor; cbn [new_blocks_available s_outq s_ready s_blocked].
+    + intros c d Hin. rewrite in_app_iff in Hin. destruct Hin as [Hin|Hin].
+      * apply prov_mono, H1, Hin.
+      * right. exists bl, []. rewrite in_app_iff. cbn. auto.
+    + intros t c d Ht Hin. apply prov_mono. eapply H2; eassumption.
+    + intros k c t Hin. destruct (H3 k c t Hin) as [Hs Hd]. split.
+      * apply started_mono; [assumption|]. intros r o. discriminate.
+      * intros c' d Hc'. apply prov_mono, Hd, Hc'.
+  - apply (PV_frame st); try assumption; try discriminate.
+    + unfold peer_disconnected. destruct (alookup N.eqb q (s_wants st)); reflexivity.
+    + unfold peer_disconnected. destruct (alookup N.eqb q (s_wants st)); reflexivity.
+    + unfold peer_disconnected. destruct (alookup N.eqb q (s_wants st)); auto.
+  - destruct HPV as [H1 H2 H3]. unfold release.
+    destruct (alookup N.eqb k (s_blocked st)) as [[c t]|] eqn:E.
+    + pose proof (alookup_Some_In N.eqb Neqb_spec _ _ _ E) as Hin.
+      destruct (H3 _ _ _ Hin) as [Hs Hd].
+      constructor; cbn [s_outq s_ready s_blocked].
+      * intros c' d Hc'. apply prov_mono, H1, Hc'.
+      * intros t' c' d Ht' Hc'. rewrite in_app_iff in Ht'. destruct Ht' as [Ht'|[<-|[]]].
+        -- apply prov_mono. eapply H2; eassumption.
+        -- cbn [t_done] in Hc'. rewrite in_app_iff in Hc'. destruct Hc' as [Hc'|[Hc'|[]]].
+           ++ apply prov_mono, Hd, Hc'.
+           ++ injection Hc' as <- ->. left. exists k. apply started_release. assumption.
+      * intros k' c' t' Hin'. unfold adel in Hin'. apply filter_In in Hin'. destruct Hin' as [Hin' Hne].
+        cbn [fst] in Hne. destruct (H3 _ _ _ Hin') as [Hs' Hd']. split.
+        -- apply started_mono; [assumption|]. intros r' o [= -> _ _]. rewrite N.eqb_refl in Hne. discriminate.
+        -- intros c'' d Hc''. apply prov_mono, Hd', Hc''.
+    + constructor.
+      * intros c' d Hc'. apply prov_mono, H1, Hc'.
+      * intros t' c' d Ht' Hc'. apply prov_mono. eapply H2; eassumption.
+      * intros k' c' t' Hin'. destruct (H3 _ _ _ Hin') as [Hs' Hd']. split.
+        -- apply started_mono; [assumption|]. intros r' o [= -> _ _].
+           apply (alookup_None N.eqb Neqb_spec) in E. apply E. apply (in_map fst) in Hin'. exact Hin'.
+        -- intros c'' d Hc''. apply prov_mono, Hd', Hc''.
+  - destruct HPV as [H1 H2 H3].
+    destruct (do_poll_spec st HI) as (st1 & out1 & wants' & wt' & bat & Hf & Hdp & HU & Hg).
+    rewrite Hdp. cbn [fst snd]. constructor; cbn [s_outq s_ready s_blocked].
+    + intros c d [].
+    + intros t c d [].
+    + intros k c t' Hin.
+      pose proof (fold_run_task_blocked_inv (s_ready st) (poll_start st) [] k c t') as Hb.
+      rewrite Hf in Hb. cbn [fst snd poll_start s_blocked] in Hb. destruct (Hb Hin) as [Hold|(t & Ht & _ & Hdone & _ & Hget)].
+      * destruct (H3 _ _ _ Hold) as [Hs Hd]. split.
+        -- apply started_mono; [assumption|]. intros r o. discriminate.
+        -- intros c' d Hc'. apply prov_mono, Hd, Hc'.
+      * split.
+        -- exists hist, SPoll, (out1 ++ map send_of bat), []. split; [reflexivity|]. split.
+           ++ rewrite in_app_iff. auto.
+           ++ intros r o [].
+        -- intros c' d Hc'. rewrite Hdone in Hc'. apply prov_mono. eapply H2; eassumption.
+Qed.
+
+Lemma PV_reach Sz ops :
+  s_panic (snd (srun_l Sz ops)) = false -> PV (snd (srun_l Sz ops)) (fst (srun_l Sz ops)).
+Proof.
+  induction ops as [|op ops IH] using rev_ind; intros Hp.
+  - constructor; cbn; intros; contradiction.
+  - pose proof (srun_l_snoc_panic _ _ _ Hp) as Hp0. rewrite srun_l_snoc. cbn [fst snd].
+    apply PV_step; auto. apply srun_l_from_inv, sinit_inv.
+Qed.
+
+(* The data sent with a block for c is the data of a store hit released for a get of c, or the
+   data of a new_blocks_available entry for c — in the history before the poll that sends it. *)
+Theorem C07_bytes_exact : forall Sz ops op p bl c d,
+  let hist := fst (srun_l Sz ops) in
+  let out := snd (sstep_l Sz (snd (srun_l Sz ops)) op) in
+  In (LSend p bl) out -> In (c, d) bl ->
+  (exists k, released_with hist k c (SHit d)) \/
+  (exists bl0 o, In (SNewBlocks bl0, o) hist /\ In (c, d) bl0).
+Proof.
+  intros Sz ops op p bl c d hist out Hsend Hcd. subst hist out.
+  destruct (sstep_l_outputs _ _ _ _ Hsend) as [Hp ->].
+  pose proof (srun_l_from_inv Sz ops sinit sinit_inv) as HI. fold (srun_l Sz ops) in HI.
+  pose proof (PV_reach Sz ops Hp) as [H1 H2 H3].
+  set (st := snd (srun_l Sz ops)) in *.
+  assert (Hstep : sstep_l Sz st SPoll = do_poll st) by (unfold sstep_l; rewrite Hp; reflexivity).
+  rewrite Hstep in *.
+  destruct (poll_sends st p bl HI Hsend) as (wants' & wt' & bat & st1 & out1 & Hdp & _ & HU & Hget & _ & _).
+  assert (Hcd' : In (c, d) (bget p bat)) by (rewrite Hget; assumption).
+  destruct (uh_from _ _ _ HU p (c, d) Hcd') as [Hq _]. rewrite in_app_iff in Hq.
+  change (prov (fst (srun_l Sz ops)) c d). destruct Hq as [Hq|Hq].
+  - apply H1, Hq.
+  - apply finished_hits_In in Hq. destruct Hq as (t & Ht & _ & Hin). eapply H2; eassumption.
+Qed.
+
+(* ---------------------------------------------------------------- the running example *)
+(* two peers, overlapping wants (c2), an unparsable entry, a cancel+want of c2 in one update, a hit,
+   a miss and a failure *)
+Definition c1 := ex_cid 1.
+Definition c2 := ex_cid 2.
+Definition c3 := ex_cid 3.
+
+Definition ex_ops_before_poll : list sop :=
+  [ SNewConn 1; SNewConn 2;
+    SMsg 1 (MkWantlist [ex_want c1; ex_want c2] false) [];
+    SMsg 2 (MkWantlist [ex_want c2; ex_want c3; ex_junk] true) [c3; c2];
+    SPoll;                                               (* get 0 = c1 (peer 1), get 1 = c3 (peer 2) *)
+    SMsg 1 (MkWantlist [ex_cancel c2; ex_want c2] false) [];
+    SRelease 0 (SHit [10]); SRelease 1 SMiss;
+    SPoll;                                               (* gets 2,3,4 = c2 (three tasks) *)
+    SRelease 2 (SHit [20]); SRelease 3 SFail; SRelease 4 SMiss ].
+
+Definition ex_ops_main : list sop := ex_ops_before_poll ++ [SPoll].
+
+Example ex_main_outputs :
+  map snd (fst (srun_l 64 ex_ops_main)) =
+  [ []; []; []; []; [LGet 0 c1; LGet 1 c3]; []; []; []; [LGet 2 c2; LGet 3 c2; LGet 4 c2]; []; []; [];
+    [LSend 1 [(c2, [20]); (c1, [10])]; LSend 2 [(c2, [20])]] ].
+Proof. vm_compute. reflexivity. Qed.
+
+Example ex_main_observable :
+  nth 12 (fst (srun 64 ex_ops_main)) [] =
+  [ OSend 1 [([1; 85; 18; 3], [20]); ([1; 85; 18; 3], [10])]; OSend 2 [([1; 85; 18; 3], [20])] ].
+Proof. vm_compute. reflexivity. Qed.
+
+Example Srv_inv_ex :
+  let st := snd (srun 64 ex_ops_before_poll) in
+  s_panic st = false /\
+  wants_of st 1 = Some [c1; c2] /\ wants_of st 2 = Some [c2; c3] /\
+  waiters_of st c2 = Some [2; 1] /\ waiters_of st c1 = Some [1] /\ waiters_of st c3 = Some [2] /\
+  sview 64 1 (fst (srun_l 64 ex_ops_before_poll)) = Some [c1; c2] /\
+  sview 64 2 (fst (srun_l 64 ex_ops_before_poll)) = Some [c2; c3].
+Proof. vm_compute. repeat split; reflexivity. Qed.
+
+Example C07_ex :
+  let out := snd (sstep_l 64 (snd (srun_l 64 ex_ops_before_poll)) SPoll) in
+  In (LSend 1 [(c2, [20]); (c1, [10])]) out /\ In (c2, [20]) [(c2, [20]); (c1, [10])] /\
+  released_with (fst (srun_l 64 ex_ops_before_poll)) 2 c2 (SHit [20]) /\
+  sview 64 1 (fst (srun_l 64 ex_ops_main)) = Some [] /\ sview 64 2 (fst (srun_l 64 ex_ops_main)) = Some [c3].
+Proof.
+  split; [vm_compute; auto|]. split; [cbn; auto|]. split; [|split; vm_compute; reflexivity].
+  unfold released_with.
+  exists (firstn 8 (fst (srun_l 64 ex_ops_before_poll))), SPoll, [LGet 2 c2; LGet 3 c2; LGet 4 c2],
+    [], [], (skipn 10 (fst (srun_l 64 ex_ops_before_poll))).
+  split; [vm_compute; reflexivity|]. split; [cbn; auto|]. intros r o [].
+Qed.
